@@ -247,6 +247,15 @@ Theorem C02_affine_mass_factorises :
 Proof. intros R O Rth ne nq phi absf detA W i j. exact (affine_mass_factorises R O Rth ne nq phi (fun e => absf (detA e)) W i j). Qed.
 Print Assumptions C02_affine_mass_factorises.
 
+(* which rule a basis integrates with (regenerated from AbstractBasis.__init__): an explicitly given quadrature rule
+   always wins over intorder; otherwise the table is asked for intorder, or 2*maxdeg when none is given *)
+Theorem C02_explicit_quadrature_precedence :
+  forall (A : Type) (r : A) (io : option nat) (maxdeg : nat) (table : nat -> A),
+  gen_rule_choice (Some r) io maxdeg table = r /\
+  gen_rule_choice None io maxdeg table = table (gen_intorder io maxdeg).
+Proof. intros. split; [apply explicit_quadrature_wins|apply no_quadrature_uses_order]. Qed.
+Print Assumptions C02_explicit_quadrature_precedence.
+
 (* ---- non-vacuity: Z and Qc are instances; a mirrored triangle has det -1, |det| 1; a concrete inverse *)
 Example C02_instances :
   ring_theory (o0 Zops) (o1 Zops) (oadd Zops) (omul Zops) (osub Zops) (oopp Zops) (@eq Z) /\
